@@ -388,6 +388,25 @@ def run(tier):
             "rejected" if rejected else "accepted", "rejected" if py_rejected else "accepted", trace_path))
     if rejected and not rep.violations and not rep.known_hits:
         rep.violation("trace rejected: no consistent variable ranking", {"trace": trace_path})
+    if not quick and not rejected:
+        # binding demonstration: one corrupted answer must make Trace_C13 reject the trace
+        lines = open(trace_path).read().splitlines()
+        idx = [k for k, ln in enumerate(lines) if '"cmp"' in ln]
+        if idx:
+            k = idx[(common.seed() * 7919) % len(idx)]
+            ev = json.loads(lines[k])
+            ev["o"] = {"<": ">", ">": "<", "=": "<"}[ev["o"]]
+            lines[k] = json.dumps(ev)
+            bad_path = trace_path + ".corrupt"
+            with open(bad_path, "w") as f:
+                f.write("\n".join(lines) + "\n")
+            cres = run_tlc("Trace_C13", "Trace_C13.cfg", workers=1, dfs=True, timeout=3000, env_extra={"TRACE": bad_path},
+                           tag="Trace_C13-corrupt")
+            crej = bool(cres.violated == "postcondition" or (cres.error and "ostcondition" in (cres.out or "")))
+            if not crej:
+                raise common.ToolError("Trace_C13 accepted a corrupted trace (event %d of %s)" % (k + 1, bad_path))
+            rep.extra["trace_binding_demo"] = "corrupted event %d rejected" % (k + 1)
+            os.remove(bad_path)
     rep.traces = consistent_queries
     rep.extra["trace_events"] = nev
     rep.extra["universe"] = n
